@@ -7,7 +7,6 @@ package main
 import (
 	"encoding/json"
 	"fmt"
-	"os"
 	"sort"
 	"strings"
 	"time"
@@ -23,6 +22,8 @@ import (
 
 	"verifharness/core"
 )
+
+const outputCap = 1 << 20
 
 type childIn struct {
 	Cases      []*testCase `json:"cases"`
@@ -40,6 +41,7 @@ type childLine struct {
 	Out     string             `json:"out,omitempty"`
 	Metrics map[string]float64 `json:"metrics,omitempty"` // delta per "name{labelvalues}"
 	Timeout bool               `json:"timeout,omitempty"`
+	TooBig  int                `json:"too_big,omitempty"` // output larger than the harness cap: its size
 	Err     string             `json:"err,omitempty"`
 	Us      int64              `json:"us,omitempty"` // duration of the command (diagnostics)
 }
@@ -89,8 +91,6 @@ func runCaseInChild(tc *testCase, ci int, from int, onlyOne bool, io *core.Child
 		return err
 	}
 	io.Log(childLine{T: "start", Case: ci, Ev: from})
-	tStart := time.Now()
-	trace := os.Getenv("VERIF_C17_TRACE") != ""
 
 	info, err := fd.DefaultPluginRegistry.Get(pipeline.PluginKindAction, "mask")
 	if err != nil {
@@ -143,16 +143,7 @@ func runCaseInChild(tc *testCase, ci int, from int, onlyOne bool, io *core.Child
 		outCh <- e.Root.EncodeToString()
 	})
 	p.Start()
-	if trace {
-		fmt.Fprintf(os.Stderr, "case %d: started in %v\n", ci, time.Since(tStart))
-	}
-	defer func() {
-		t := time.Now()
-		p.Stop()
-		if trace {
-			fmt.Fprintf(os.Stderr, "case %d: stop took %v, whole case %v\n", ci, time.Since(t), time.Since(tStart))
-		}
-	}()
+	defer p.Stop()
 
 	names := watchedMetrics(&tc.Config)
 	prev := metricSnapshot(reg, names)
@@ -164,6 +155,11 @@ func runCaseInChild(tc *testCase, ci int, from int, onlyOne bool, io *core.Child
 		select {
 		case s := <-outCh:
 			line.Out = s
+			if len(s) > outputCap+64*len(tc.Events[ei]) {
+				// far beyond anything the generated masks can legitimately produce;
+				// do not carry megabytes around, and leave this plugin instance
+				line.Out, line.TooBig = "", len(s)
+			}
 		case <-time.After(30 * time.Second):
 			line.Timeout = true
 		}
@@ -177,7 +173,7 @@ func runCaseInChild(tc *testCase, ci int, from int, onlyOne bool, io *core.Child
 		prev = cur
 		line.Us = time.Since(t0).Microseconds()
 		io.Log(line)
-		if line.Timeout || onlyOne {
+		if line.Timeout || line.TooBig > 0 || onlyOne {
 			break
 		}
 	}
